@@ -3,7 +3,7 @@ CONSTANTS
   SearchSet <- MCL_Search
   NDotsSet = {1}
   DotsSet = {0, 1}
-  CallSet = {"query", "search"}
+  CallSet = {"query"}
   TooLongSet <- MCQ_TooLong
   ModeSet = {"mock"}
   UseVcSet = {FALSE}
